@@ -30,12 +30,12 @@ theorem guard_only_at_or_above (cfg : Cfg) (dels cnt : Nat) (h : guardRefuses cf
   rcases h5 with h | ⟨h, _⟩ <;> omega
 
 /-- A refused run changes nothing, performs no action and exits non-zero. -/
-theorem refuse_changes_nothing (cfg : Cfg) (scan : List SEntry) (dst : Map DNode) (n : Nat)
-    (h : (run cfg scan dst n).refused = true) :
-    (run cfg scan dst n).dst = dst ∧ (run cfg scan dst n).events = [] ∧
-    (run cfg scan dst n).created = 0 ∧ (run cfg scan dst n).updated = 0 ∧
-    (run cfg scan dst n).deleted = 0 ∧ (run cfg scan dst n).exit ≠ 0 := by
-  unfold run at h ⊢
+theorem refuse_changes_nothing (cfg : Cfg) (flt : Faults) (scan : List SEntry) (dst : Map DNode) (n : Nat)
+    (h : (runF cfg flt scan dst n).refused = true) :
+    (runF cfg flt scan dst n).dst = dst ∧ (runF cfg flt scan dst n).events = [] ∧
+    (runF cfg flt scan dst n).created = 0 ∧ (runF cfg flt scan dst n).updated = 0 ∧
+    (runF cfg flt scan dst n).deleted = 0 ∧ (runF cfg flt scan dst n).exit ≠ 0 := by
+  unfold runF at h ⊢
   simp only at h ⊢
   split
   · simp
@@ -43,21 +43,21 @@ theorem refuse_changes_nothing (cfg : Cfg) (scan : List SEntry) (dst : Map DNode
 
 /-- Whenever the planned deletions exceed the configured share, the run is refused — before any
     task has run. -/
-theorem exceeding_share_refused (cfg : Cfg) (scan : List SEntry) (dst : Map DNode) (n : Nat)
+theorem exceeding_share_refused (cfg : Cfg) (flt : Faults) (scan : List SEntry) (dst : Map DNode) (n : Nat)
     (hd : cfg.delete = true) (hf : cfg.force = false) (hc : 0 < dst.length)
     (hx : ((plan cfg scan dst).filter (·.act == .delete)).length * 100 > cfg.threshold * dst.length) :
-    (run cfg scan dst n).refused = true ∧ (run cfg scan dst n).dst = dst := by
+    (runF cfg flt scan dst n).refused = true ∧ (runF cfg flt scan dst n).dst = dst := by
   have hg := guard_refuses cfg _ _ hd hf hc hx
-  unfold run
+  unfold runF
   simp only [hg, ↓reduceIte, and_self]
 
 /-- An empty (unmounted, mistaken) source cannot wipe a destination: every destination entry
     would be deleted, which exceeds any threshold below 100 %. -/
-theorem empty_source_cannot_wipe (cfg : Cfg) (dst : Map DNode) (n : Nat)
+theorem empty_source_cannot_wipe (cfg : Cfg) (flt : Faults) (dst : Map DNode) (n : Nat)
     (hd : cfg.delete = true) (hf : cfg.force = false) (hthr : cfg.threshold < 100)
     (hne : 0 < dst.length) (hown : ∀ p ∈ dst.keys, ownMetadata.contains p = false) :
-    (run cfg [] dst n).refused = true ∧ (run cfg [] dst n).dst = dst := by
-  apply exceeding_share_refused cfg [] dst n hd hf hne
+    (runF cfg flt [] dst n).refused = true ∧ (runF cfg flt [] dst n).dst = dst := by
+  apply exceeding_share_refused cfg flt [] dst n hd hf hne
   have hplan : plan cfg [] dst = dst.keys.map (fun p => ⟨.delete, p, .nothing⟩) := by
     unfold plan planDeletions scanFilter scanFilterGo
     simp only [hd, ↓reduceIte, List.map_nil, List.nil_append, List.any_nil, Bool.not_false, Bool.true_and]
@@ -92,6 +92,6 @@ def exCfg : Cfg where
 example : guardRefuses exCfg 3 5 = true := guard_refuses exCfg 3 5 rfl rfl (by decide) (by decide)
 example : guardRefuses exCfg 2 5 = false := by decide
 example : (run exCfg [] [(["a"], .dir), (["b"], .dir)] 10).refused = true :=
-  (empty_source_cannot_wipe exCfg _ 10 rfl rfl (by decide) (by decide) (by decide)).1
+  (empty_source_cannot_wipe exCfg noFaults _ 10 rfl rfl (by decide) (by decide) (by decide)).1
 
 end SyModel.Props.C07
